@@ -507,6 +507,11 @@ theorem C10_covered_param_lazy (env : Env F) (p : Param F) (hc : Covered env p)
     · exact ⟨C10_covered_tokens_lazy _ hst (Or.inr (Or.inr (Or.inr (Or.inl h)))), hbf, ha, hs⟩
     · exact ⟨C10_covered_tokens_lazy _ hst (Or.inr (Or.inr (Or.inl h))), hbf, ha, hs⟩
 
+/-- the source skips comments as raw text (`sectionReader::skipComment`, regenerated; `fixes/C10-7`): the hypothesis `commentsRaw = true`
+    of the theorems of this section holds for the tree the check runs on.  Does not elaborate on a tree where comments are skipped with
+    `findNormalString("*/")` -/
+theorem C10_source_comments_raw : commentsRaw = true := by decide
+
 /-- what the lazy side asks of a record of the eager reader's covered class, all of it about the bytes of the file: the keyword is
     upper case, the instance name is not `#0` and has at most `instanceIdDigits` significant digits, no parameter is an aggregate or a
     typed SELECT value, and every byte is below 256 -/
@@ -574,6 +579,36 @@ theorem C10_index_equals_eager_partial (ops : FloatOps F) (lex : LexCfg) (cfg : 
     rfl
   · simp [List.map_map, Function.comp_def, recEntry]
   · rw [hcr]; simp
+
+/-- **`loadInstance` hands `STEPread` exactly the record's parameter list** (`_partial`).  For a record of the covered class standing
+    anywhere in a file (`lead` = the layout before its `#`, so the record's recorded offset `begin` is the start of `lead`, which is
+    where `nextInstance` was called when it indexed the record — `scan_recs`):  `sectionReader::getRealInstance`'s positioning
+    (`seekg( begin ); findNormalString( "(" );` one character back — model `stepReadInput`, shape regenerated) leaves the stream at
+    `( p₁ , … , pₙ ) s4 ; rest`, passing over leading comments (which may contain parentheses and apostrophes), `#id`, `=`, the keyword
+    and every separator between them; and `SDAI_Application_instance::STEPread` (the eager model's `instSTEPread`, the same function
+    the eager reader calls) on exactly that text reads every parameter to the value the eager reader stores for the record
+    (`C01_read_record_partial`), with severity NULL, and rests after the `)`.
+    Excluded: as in `C10_index_equals_eager_partial` (aggregate and typed-SELECT parameters, lower-case keywords, `#0`, bytes ≥ 256,
+    the source before `fixes/C10-7`); the reference look-up `env.lookup` is the same function on both sides — in the code the lazy
+    side answers it through `instMgrAdapter::FindFileId` → `loadInstance` (`C10_load_any_order`: resolved exactly as the eager
+    reader resolves them). -/
+theorem C10_materialise_partial (hraw : commentsRaw = true) (env : Env F) (strict : Bool) (hcri : env.lex.criSkipsComments = true)
+    (hagg : env.cfg.aggrSkipsComments = true) (lead : List Nat) (hlead : Seps lead) (hls : Small lead)
+    (rg : Rec F × List Nat) (hc : RecCovered env rg) (hlz : LazySide rg) (hne : rg.1.ps ≠ []) (rest : List Nat) (f : Nat)
+    (hf : 6 * (lead ++ 35 :: rg.1.text rest).length + 30 ≤ f) (l : List Nat) (sk : Bool) :
+    stepReadInput f (cs (lead ++ 35 :: rg.1.text rest)) = .ok (cs (40 :: (renderParams rg.1.ps ++ rg.1.t4 rest))) ∧
+    ∃ r, instSTEPread env strict (rg.1.ps.map (·.a)) (G l (40 :: (renderParams rg.1.ps ++ rg.1.t4 rest)) sk) = .ok r ∧
+      r.sev = .null ∧ r.vals = rg.1.ps.map (·.v) ∧ r.s.right = rg.1.t4 rest := by
+  obtain ⟨hl, hg, _, _, _, _, hcov⟩ := hc
+  have hlr : LazyRec rg.1 := ⟨hlz.up0, hlz.ups, hlz.pos, hlz.dlen,
+    fun p hp => C10_covered_param_lazy env p (hcov p hp) (hlz.smp p hp) (hlz.scalar p hp), hlz.sm⟩
+  constructor
+  · rw [lrec_eq]
+    have := stepReadInput_lrec hraw lead hlead hls rg.1 hl hlr (cs rest) f (by rw [← lrec_eq, cs_length]; exact hf)
+    rw [this]
+    simp [cs_cons, cs_append, Rec.t4, ch]
+  · obtain ⟨sk', h⟩ := C01_read_record_partial env strict hcri hagg rg.1.ps hne hcov l sk (rg.1.t4 rest)
+    exact ⟨_, h, rfl, rfl, rfl⟩
 
 /-- the ids the eager model creates from a data section (dictionary `exDict` of the C01 owner: one entity `A(i : INTEGER, l : LIST OF
     INTEGER)`), with the count `ReadData1` reports -/
